@@ -17,7 +17,8 @@ def ofResC (r : Res (List Char × List Char)) : Json :=
   | .notFound => Json.mkObj [("notFound", Json.bool true)]
 
 /-- `cmd = "ids"`: `{primary, secondary, prefixes:[…]}` → combined id and the split of each prefix.
-    `cmd = "resolve"`: `{ids:[…], bugs:[{id, comments:[…]}], q:[{k:"id"|"comment", pre}]}`. -/
+    `cmd = "resolve"`: `{ids:[…], bugs:[{id, comments:[…]}], q:[{k:"id"|"comment", pre}]}`.
+    `cmd = "select"`: `{ids:[…], q:[{selected:""|id, args:[…]}]}`. -/
 def handle (j : Json) : Json :=
   match getStr j "cmd" with
   | "ids" =>
@@ -39,6 +40,18 @@ def handle (j : Json) : Json :=
       match getStr q "k" with
       | "id" => ofRes (resolve ids pre)
       | _ => ofResC (resolveComment bugs pre)
+    jarr outs
+  | "select" =>
+    let ids := (strArr j "ids").map String.toList
+    let outs := (getArr j "q").map fun q =>
+      let sel := match getStr q "selected" with
+        | "" => none
+        | s => some s.toList
+      let args := (strArr q "args").map String.toList
+      match selectResolve ids sel args with
+      | .entity x rest => Json.mkObj [("entity", Json.str (String.ofList x)), ("rest", jstrs (rest.map String.ofList))]
+      | .multiple xs => Json.mkObj [("multiple", jstrs ((xs.map String.ofList).toArray.qsort (· < ·)).toList)]
+      | .noValidId cl => Json.mkObj [("noValidId", Json.bool cl)]
     jarr outs
   | c => Json.mkObj [("bad-op", Json.str c)]
 
